@@ -69,6 +69,7 @@ def run(ctx):
     from . import c02 as _c02, c07 as _c07, c08 as _c08, c09 as _c09, lexrules as _lex
     _g = _lex.grammar_of(ctx.repo, 'bridgepoint.oal:OALParser')
     ctx.shared(_c07.lists, ctx, _g)            # statement / elif / parameter lists are built in source order
+    ctx.shared(_c07.optional, ctx, _g)         # the short and the long spelling of a statement build the same tree (where clauses, assign ...)
     ctx.shared(_c08.taint, ctx, _g, _c08.keyword_fields(ctx, _g))   # keyword-carrying fields (cardinality ...) are read case-normalised
     ctx.shared(_c09.nav, ctx)                  # navigation behind select ... related by
     ctx.shared(_c02.linkops, ctx)              # relate / unrelate
@@ -290,6 +291,23 @@ def control(ctx):
         r.check(paths and all(p[-1][0].kind == 'raise' for p in paths), '%s raises on every path' % handler, fn,
                 construct=AW + '.' + handler, key='always-raises',
                 msg='%s can return without raising %s: the statement would have no effect' % (handler, exc))
+    # the four control exceptions are told apart by their class in `except` clauses: none may be a kind of another
+    bases = repo.exception_bases()
+
+    def ancestors(n):
+        seen, todo = set(), list(bases.get(n, ()))
+        while todo:
+            b = todo.pop()
+            if b not in seen:
+                seen.add(b)
+                todo += list(bases.get(b, ()))
+        return seen
+    for exc in sorted(want_raise):
+        related = sorted(a for a in ancestors(exc) if a in want_raise)
+        r.check(not related, '%s is not a kind of another control exception' % exc, repo.cls('bridgepoint.interpret:' + exc),
+                construct='bridgepoint.interpret:' + exc, key='hierarchy ' + exc,
+                msg='%s derives from %s: every `except %s` clause (the loop evaluators, the body evaluator) also catches %s, so the '
+                    'statement that raises it behaves like the other one' % (exc, related, related[0] if related else '', exc))
     # catch sites
     catches = {}
     for c in repo.classes('bridgepoint.interpret'):
@@ -307,7 +325,10 @@ def control(ctx):
                         names = [dotted(n.type)]
                     for nm in names:
                         catches.setdefault((nm or '').split('.')[-1], []).append(('%s.%s' % (c.name, m.name), n, m))
-    for broad in ('<bare>', 'Exception', 'BaseException'):
+    common = set()
+    for exc in want_raise:
+        common |= set(a for a in ancestors(exc) if a not in want_raise)
+    for broad in ['<bare>', 'Exception', 'BaseException'] + sorted(common - {'Exception', 'BaseException', 'object'}):
         for q, n, m in catches.get(broad, []):
             r.violation('%s catches %s: loop-control / return exceptions would be swallowed' % (q, broad), n,
                         construct='bridgepoint.interpret:' + q, key='broad-except')
